@@ -161,6 +161,23 @@ def select_where(chk):
                    expected="sig[sig == True].index with sig = signal.loc[now]", found=short(v, 200), sample={"value": short(v, 160)})
 
 
+HASDATA_REF = '''
+def ref(self, target):
+    if "selected" in target.temp:
+        selected = target.temp["selected"]
+    else:
+        selected = target.universe.columns
+    filt = target.universe.loc[target.now - self.lookback :, selected]
+    cnt = filt.count()
+    cnt = cnt[cnt >= self.min_count]
+    if not self.include_no_data:
+        cnt = cnt[~target.universe.loc[target.now, selected].isnull()]
+        if not self.include_negative:
+            cnt = cnt[target.universe.loc[target.now, selected] > 0]
+    target.temp["selected"] = list(cnt.index)
+    return True
+'''
+
 WINDOW_REFS = {
     "StatTotalReturn": '''
 def ref(self, target):
@@ -292,6 +309,8 @@ def run(chk):
     backtest_rules.additional_data_only_prepended(chk)  # SetStat / SelectWhere rely on "no row at now" of sparse named data
     select_where(chk)
     has_data_window(chk)
+    check_equiv(chk, "C14.R2", ALGOS, "SelectHasData", "__call__", HASDATA_REF, "documented-set",
+                "SelectHasData: tickers with at least min_count observations in the window; the current-price filters apply only when include_no_data is off (and the positivity filter only within it)")
     for cls, src in WINDOW_REFS.items():
         rule = "C14.R2" if cls in ("StatTotalReturn", "SetStat") else ("C14.R3" if cls == "SelectN" else "C14.R4")
         check_equiv(chk, rule, ALGOS, cls, "__call__", src, "documented-set", "%s: %s" % (cls, WHAT[cls]))
@@ -303,3 +322,7 @@ def run(chk):
     random_sample(chk)
     # "never a ticker outside the strategy's universe": what the universe is (declared tickers present in the data, all if none declared)
     tree_rules.universe_rules(chk, "C19")
+    from .c19 import NODE_INIT_REF
+    check_equiv(chk, "C19.R1", CORE, "Node", "__init__", NODE_INIT_REF, "node-construction",
+                "a node without a parent is its own parent and root (integer positions by default); with a parent it is attached to it (not copied); declared children are attached as copies",
+                no_inline=("_add_children",))
